@@ -3,6 +3,12 @@
 Layout  : every `gen_bitrange_const!(NAME, start, width)` and every `const NAME: usize = …` of the
           inherent impls in sciparse/src/proto/**/layout.rs (+ SCMP_ERROR_MAX_PACKET_SIZE), the
           SCMP message-kind table (type code, fixed header size, variable-length?, field ranges).
+Setters : every setter of every view type (`gen_field_write!` / `gen_field_read_and_write!` = safe,
+          `gen_unsafe_field_write!` = unsafe, hand-written `pub [unsafe] fn set_*(&mut self, ..)` writing one
+          layout range) with its resolved bit range, and every other `pub [unsafe] fn ..(&mut self ..)` of the
+          view types (mutable sub-view / slice accessors, in-place transformations).  The Lean theorems
+          `Access.generated_*` are decided over these tables, so a setter that changes between safe and
+          unsafe, or a new `&mut self` function, re-checks (and may break) the proofs.
 AddrType: `impl From<u8> for WireHostAddrType` (nibble -> kind/id/size), `WireHostAddrType::size`,
           `impl From<WireHostAddrType> for u8`, `PathType` / `ProtocolNumber` / `ScmpMessageType`
           `From<u8>` tables.
@@ -196,6 +202,123 @@ def register(api):
         body += "def scmpKinds : List ScmpKindRow := [\n" + ",\n".join(rows) + "\n]\n"
         body += "end ScionVerif.Generated.Layout\n"
         return api.write_lean("Layout", body, LAYOUT_FILES + [trel]), vals
+
+
+    VIEW_FILES = [
+        SP + "proto/header/view.rs",
+        SP + "proto/dataplane_path/standard/view.rs",
+        SP + "proto/dataplane_path/standard/routing.rs",
+        SP + "proto/dataplane_path/onehop/view.rs",
+        SP + "proto/packet/view.rs",
+        SP + "proto/payload/udp/view.rs",
+        SP + "proto/payload/scmp/view.rs",
+    ]
+
+    def _match_brace(src, i):
+        """index just after the brace block that opens at src[i] == '{'"""
+        depth = 0
+        while i < len(src):
+            c = src[i]
+            if c == "{":
+                depth += 1
+            elif c == "}":
+                depth -= 1
+                if depth == 0:
+                    return i + 1
+            i += 1
+        raise E("unbalanced braces in a view file")
+
+    def scan_views(ranges, consts):
+        """-> (setters, mutfns): setters = [(view, fn, safe, range-expression, (start, stop))],
+        mutfns = [(view, fn, safe)] for every other inherent `pub [unsafe] fn f(&mut self ..)`."""
+        setters, mutfns = [], []
+
+        def resolve(owner, rname, sh, what):
+            if (owner, rname) not in ranges:
+                raise E(f"{what}: unknown range {owner}::{rname}")
+            s, e = ranges[(owner, rname)]
+            expr = f"{owner}::{rname}"
+            if sh:
+                so, sn = sh
+                if (so, sn) not in consts:
+                    raise E(f"{what}: unknown shift constant {so}::{sn}")
+                k = consts[(so, sn)]
+                s, e = s + 8 * k, e + 8 * k
+                expr += f".shift({so}::{sn})"
+            return expr, (s, e)
+
+        for rel in VIEW_FILES:
+            src = _cut_tests(api.strip_comments(api.read(rel)))
+            aliases = {m.group(1): m.group(2) for m in re.finditer(r"pub type (\w+)\s*=\s*(\w+)<(\w+)>\s*;", src)}
+            for im in re.finditer(r"^impl(?:<[^>]*>)?\s+(\w+)(?:<[^>]*>)?\s*\{", src, flags=re.M):
+                view = im.group(1)
+                body = src[im.end() - 1:_match_brace(src, im.end() - 1)]
+                # macro-generated setters
+                for mm in re.finditer(r"\b(gen_field_write|gen_unsafe_field_write|gen_field_read_and_write)!\s*\(", body):
+                    i, depth = mm.end(), 1
+                    while depth and i < len(body):
+                        depth += body[i] == "("; depth -= body[i] == ")"; i += 1
+                    args = _split_args(body[mm.end():i - 1])
+                    kind = mm.group(1)
+                    want = 4 if kind == "gen_field_read_and_write" else 3
+                    if len(args) != want:
+                        raise E(f"{rel}: {kind}! in impl {view} with {len(args)} args")
+                    name, rexpr = (args[1], args[2]) if want == 4 else (args[0], args[1])
+                    rm = re.fullmatch(r"(\w+)::(\w+)", rexpr)
+                    if not rm:
+                        raise E(f"{rel}: {view}::{name}: range expression {rexpr!r} not understood")
+                    expr, r = resolve(rm.group(1), rm.group(2), None, f"{view}::{name}")
+                    setters.append((view, name, kind != "gen_unsafe_field_write", expr, r))
+                # hand-written `&mut self` functions
+                for fm in re.finditer(r"\bpub\s+(unsafe\s+)?fn\s+(\w+)\s*(?:<[^>(]*>)?\s*\(\s*&\s*(?:'\w+\s+)?mut\s+self\b", body):
+                    name, safe = fm.group(2), fm.group(1) is None
+                    j = body.find("{", fm.end())
+                    fbody = body[j:_match_brace(body, j)]
+                    rs = re.findall(r"\b(\w+Layout)::(\w+_RNG)\b(?:\s*\.shift\(\s*(\w+)::(\w+)\s*\))?", fbody)
+                    if name.startswith("set_") and len(set(rs)) == 1:
+                        o, n, so, sn = rs[0]
+                        expr, r = resolve(o, n, (so, sn) if so else None, f"{view}::{name}")
+                        setters.append((view, name, safe, expr, r))
+                    else:
+                        mutfns.append((view, name, safe))
+            _ = aliases
+        if not setters:
+            raise E("no setter found in the view files")
+        names = [(v, n) for v, n, *_ in setters] + [(v, n) for v, n, _ in mutfns]
+        if len(names) != len(set(names)):
+            dup = sorted({x for x in names if names.count(x) > 1})
+            raise E(f"duplicate &mut self functions {dup}")
+        return setters, mutfns
+
+    @api.domain
+    def gen_Setters():
+        ranges, consts, _order, _variable, _glob = scan_layouts()
+        setters, mutfns = scan_views(ranges, consts)
+        for must in [("ScionHeaderView", "set_header_len"), ("StandardPathView", "set_seg0_len"),
+                     ("ScmpPayloadView", "set_message_type"), ("UdpDatagramView", "set_length"),
+                     ("ScionHeaderView", "set_traffic_class"), ("HopFieldView", "set_mac")]:
+            if not any((v, n) == must for v, n, *_ in setters):
+                raise E(f"setter {must[0]}::{must[1]} not found")
+        for must in [("ScionHeaderView", "path_mut"), ("ScmpPayloadView", "message_mut"), ("ScionPacketView", "header_mut"),
+                     ("ScionRawPacketView", "payload_mut"), ("StandardPathView", "try_reverse"),
+                     ("StandardPathView", "advance_ingress"), ("StandardPathView", "advance_egress")]:
+            if not any((v, n) == must for v, n, _ in mutfns):
+                raise E(f"&mut self function {must[0]}::{must[1]} not found")
+        body = "import ScionVerif.Model.Bits\nnamespace ScionVerif.Generated.Setters\nopen ScionVerif\n\n"
+        body += ("/-- one field setter of a view type: Rust type, function, `safe` = not an `unsafe fn`, the layout range\n"
+                 "    expression of the source, and its value (bits, relative to the start of the view) -/\n"
+                 "structure SetterRow where\n  view : String\n  name : String\n  safe : Bool\n  expr : String\n  range : BitRange\n"
+                 "deriving DecidableEq, Repr\n\n")
+        body += "def setters : List SetterRow := [\n" + ",\n".join(
+            f"  ⟨\"{v}\", \"{n}\", {'true' if s else 'false'}, \"{x}\", ⟨{r[0]}, {r[1]}⟩⟩" for v, n, s, x, r in setters) + "\n]\n\n"
+        body += ("/-- every other inherent `pub [unsafe] fn f(&mut self, ..)` of the view types -/\n"
+                 "structure MutFnRow where\n  view : String\n  name : String\n  safe : Bool\nderiving DecidableEq, Repr\n\n")
+        body += "def mutFns : List MutFnRow := [\n" + ",\n".join(
+            f"  ⟨\"{v}\", \"{n}\", {'true' if s else 'false'}⟩" for v, n, s in mutfns) + "\n]\n"
+        body += "end ScionVerif.Generated.Setters\n"
+        vals = {"setters": {f"{v}::{n}": {"safe": s, "range": list(r), "expr": x} for v, n, s, x, r in setters},
+                "mut_fns": {f"{v}::{n}": {"safe": s} for v, n, s in mutfns}}
+        return api.write_lean("Setters", body, VIEW_FILES + LAYOUT_FILES), vals
 
     @api.domain
     def gen_AddrType():
